@@ -76,7 +76,7 @@ def _run_group(group):
 def build_key(sc) -> str:
     from .core import canon
     return canon([sc["arch"], sc["cfg"], sc.get("temp"), sc.get("gumbel"), sc.get("mode"), sc.get("hard_flag"),
-                  sc.get("metrics"), sc.get("probe"), sc.get("seed", 0) // 1000])
+                  sc.get("metrics"), sc.get("probe"), sc.get("full"), sc.get("seed", 0) // 1000])
 
 
 def run_scenarios(scs: List[Dict[str, Any]], procs: int = 0) -> List[Dict[str, Any]]:
@@ -111,7 +111,7 @@ def _randomize(net, gen) -> None:
     import torch.nn as nn
     with torch.no_grad():
         for m in net.modules():
-            if isinstance(m, (nn.Conv2d, nn.Linear)):
+            if isinstance(m, (nn.Conv1d, nn.Conv2d, nn.Linear)):
                 fan = m.weight[0].numel()
                 w = (torch.rand(m.weight.shape, generator=gen) * 1.6 + 0.2) * (torch.randint(0, 2, m.weight.shape, generator=gen) * 2 - 1)
                 m.weight.copy_(w * (1.4 / fan ** 0.5))
@@ -137,6 +137,8 @@ class Probe:
         self.spec[(nn.Conv2d, None)] = self._fn("conv")
         self.spec[(nn.Conv2d, conv_dw_constraint)] = self._fn("dw")
         self.spec[(nn.Linear, None)] = self._fn("lin")
+        self.spec[(nn.Conv1d, None)] = self._fn("conv")
+        self.spec[(nn.Conv1d, conv_dw_constraint)] = self._fn("dw")
 
     def _fn(self, pat):
         import torch
@@ -176,10 +178,12 @@ def build(sc) -> Dict[str, Any]:
         cost["probe"] = probe.spec
     if not cost:
         cost = {"params_bit": pc.params_bit}
+    from .archgen import exclude_names
     m = MPS(net, cost=cost, input_shape=input_shape(arch),
             w_search_type=MPSType.PER_CHANNEL if cfg["wt"] == "pc" else MPSType.PER_LAYER,
             qinfo=qinfo, temperature=float(sc.get("temp", 1.0)), gumbel_softmax=bool(sc.get("gumbel", False)),
-            hard_softmax=bool(sc.get("hard_flag", sc.get("mode") == "hard")))
+            hard_softmax=bool(sc.get("hard_flag", sc.get("mode") in ("hard", "ghard"))),
+            exclude_names=exclude_names(arch), full_cost=bool(sc.get("full", False)))
     # map MPS modules to architecture nodes
     recs: Dict[int, Dict[str, Any]] = {}          # node -> {"name", "layer", "kind"}; node 0 = input quantiser
     add_nodes = [i for i, n in enumerate(arch["nodes"], start=1) if n["op"] == "add"]
@@ -309,12 +313,18 @@ def apply_selection(sc, B, rng) -> Dict[str, Any]:
                 _write(qw, ww, rng)
             else:
                 conflict = True
-    # the intended bits per node, read back from what was written through THAT node's quantisers
+    _fill_want(want, written, recs, sh)
+    return {"want": want, "conflict": conflict, "written": written}
+
+
+def _fill_want(want, written, recs, sh) -> None:
+    """The intended bits per node, read back from what was last written through THAT node's quantisers."""
     for n in sorted(recs):
         lay = recs[n]["layer"]
         q = lay.out_mps_quantizer
         p = [int(x) for x in q.precision.tolist()]
         wa = written.get(id(q))
+        want.setdefault(n, {"o": NA, "w": []})
         want[n]["o"] = p[wa[1]] if wa is not None else p[0]
         if recs[n]["kind"] in ("conv", "lin"):
             qw = lay.w_mps_quantizer
@@ -327,7 +337,59 @@ def apply_selection(sc, B, rng) -> Dict[str, Any]:
                 want[n]["w"] = [pw[i] for i in ww[1]]
             else:
                 want[n]["w"] = [pw[ww[1]]] * cout
-    return {"want": want, "conflict": conflict}
+
+
+def load_new_alphas(B, written, rng) -> None:
+    """History action `load`: draw a NEW winner for every quantiser object and install the coefficients with
+    load_state_dict (no forward pass): theta_alpha keeps encoding the previously sampled assignment."""
+    import torch
+    m, recs = B["m"], B["recs"]
+    new: Dict[int, Any] = {}
+    for n in sorted(recs):
+        lay = recs[n]["layer"]
+        qs = [("a", lay.out_mps_quantizer)]
+        if recs[n]["kind"] in ("conv", "lin"):
+            qs.append(("w", lay.w_mps_quantizer))
+        for kind, q in qs:
+            if id(q) in new:
+                continue
+            nc = q.alpha.shape[0]
+            if q.alpha.dim() == 1:
+                old = written.get(id(q), (kind, 0))[1]
+                w = rng.randrange(nc)
+                if nc > 1 and w == old:
+                    w = (w + 1) % nc
+                new[id(q)] = (kind, w, torch.tensor(_alpha_for(nc, w, rng), dtype=torch.float32))
+            else:
+                w = [rng.randrange(nc) for _ in range(q.alpha.shape[1])]
+                new[id(q)] = (kind, w, torch.tensor([_alpha_for(nc, x, rng) for x in w], dtype=torch.float32).t())
+    sd = m.state_dict()
+    for key in list(sd):
+        if key.endswith(".alpha"):
+            q = m.get_submodule(key[:-len(".alpha")])
+            if id(q) in new:
+                sd[key] = new[id(q)][2].clone()
+    m.load_state_dict(sd)
+    for k, (kind, w, _) in new.items():
+        written[k] = (kind, w)
+
+
+def _theta_bits(q):
+    """Projection of the SAMPLED coefficients: precision at the largest theta (per channel), and whether theta is
+    one-hot (every entry within 2e-6 of 0 / 1: hard Gumbel computes 1 - y + y in float32)."""
+    import torch
+    th = q.theta_alpha.detach()
+    p = [int(x) for x in q.precision.tolist()]
+    idx = torch.argmax(th, dim=0)
+    hot = torch.zeros_like(th)
+    if th.dim() == 1:
+        hot[int(idx)] = 1.0
+        bits = [p[int(idx)]]
+    else:
+        hot.scatter_(0, idx.unsqueeze(0), 1.0)
+        bits = [p[int(i)] for i in idx]
+    return bits, bool((th - hot).abs().max() <= 2e-6)
+
 
 
 # ------------------------------------------------------------------ one scenario
@@ -340,10 +402,12 @@ def _centi(x: float) -> int:
 
 def run(sc: Dict[str, Any], cache: Optional[Dict[str, Any]] = None) -> Dict[str, Any]:
     import torch
-    from plinio.methods.mps.quant.nn import QuantConv2d, QuantLinear, QuantIdentity, QuantList
+    from plinio.methods.mps.quant.nn import QuantConv1d, QuantConv2d, QuantLinear, QuantIdentity, QuantList
     key = build_key(sc)
+    fresh_model = True
     if cache is not None and cache.get("key") == key:
         B = cache["B"]
+        fresh_model = False
     else:
         try:
             B = build(sc)
@@ -357,7 +421,8 @@ def run(sc: Dict[str, Any], cache: Optional[Dict[str, Any]] = None) -> Dict[str,
         return {"prop": sc.get("prop", "C02"), "arch": norm_arch(sc["arch"]), "cfg": sc["cfg"], "build_ok": False,
                 "build_err": B["err"], "L": [], "metrics": [], "cost": {}, "cost_ok": {}, "probe": False, "conflict": False,
                 "export_done": False, "export_ok": False, "export_err": "", "bit_identical": False, "y_varies": False,
-                "maxdiff_e6": 0, "mode": sc.get("mode", "eval")}
+                "maxdiff_e6": 0, "mode": sc.get("mode", "eval"), "hist": [], "hist_err": "", "cost2": {}, "cost2_ok": {}, "fresh_model": True,
+                "full": bool(sc.get("full", False))}
     m, recs, arch, probe = B["m"], B["recs"], B["arch"], B["probe"]
     rng = random.Random(sc.get("seed", 0) * 7919 + 13)
     S = apply_selection(sc, B, rng)
@@ -372,15 +437,16 @@ def run(sc: Dict[str, Any], cache: Optional[Dict[str, Any]] = None) -> Dict[str,
     do_export = bool(sc.get("export", sc["cfg"]["wt"] == "pl"))
     exported = None
     err = ""
-    ys = None
-
-    def forward_all():
-        if t["mode"] == "hard":
-            m.train()
-        else:
-            m.eval()
-        with torch.no_grad():
-            return [m(x) for x in xs]
+    mode = t["mode"]
+    hist = sc.get("hist")
+    if hist is None:        # default: export before / after ONE forward pass in the scenario's mode
+        fw = "fwd_" + mode
+        hist = (["export!", fw] if t["order"] == "ef" else [fw, "export!"]) if do_export else [fw]
+    if sc["cfg"]["wt"] == "pc":         # the per-channel exporter (QuantList) is outside C02 / C05: not called in histories
+        hist = ["summary" if a == "export" else a for a in hist]
+    t["hist"] = [a for a in hist if a != "export!"]
+    t["fresh_model"] = fresh_model
+    hist_err = ""
 
     def export_now():
         nonlocal exported, err
@@ -391,28 +457,76 @@ def run(sc: Dict[str, Any], cache: Optional[Dict[str, Any]] = None) -> Dict[str,
             exported = None
             err = f"{type(e).__name__}: {e}"[:200]
 
-    if do_export and t["order"] == "ef":
-        m.eval()
-        export_now()
-        ys = forward_all()
-    else:
-        ys = forward_all()
-        if do_export:
+    def do(act):
+        if act == "fwd_eval":
+            m.eval()
+        elif act == "fwd_hard":
+            m.update_softmax_options(hard=True, gumbel=False)
+            m.train()
+        elif act == "fwd_ghard":
+            m.update_softmax_options(hard=True, gumbel=True)
+            m.train()
+        if act.startswith("fwd_"):
+            with torch.no_grad():
+                for x in xs:
+                    m(x)
+        elif act == "export!":
+            m.eval()
             export_now()
-    # ---- costs (after the forward pass in the requested mode) and probe
-    costs, cost_ok = {}, {}
-    for name in sc.get("metrics", []):
+        elif act == "export":
+            m.export()
+        elif act == "summary":
+            m.summary()
+        elif act == "upd":
+            m.update_softmax_options(temperature=round(0.05 * (400.0 ** rng.random()), 3))
+        elif act == "load":
+            load_new_alphas(B, S["written"], rng)
+            _fill_want(want, S["written"], recs, sh)
+        elif act == "train":
+            m.train()
+        elif act == "eval":
+            m.eval()
+        else:
+            raise tlc.MachineryError(f"unknown history action {act}")
+
+    torch.manual_seed(sc.get("seed", 0) + 11)          # Gumbel noise is drawn from the global generator
+    for act in hist:
         try:
-            c = float(m.get_cost(name))
-            fin = c == c and abs(c) != float("inf")
-            costs[name] = _centi(c) if fin else 0
-            cost_ok[name] = bool(fin)
-        except (AssertionError, KeyError, ValueError, RuntimeError, TypeError, IndexError):
-            costs[name] = 0
-            cost_ok[name] = False
-    t["cost"] = costs
-    t["cost_ok"] = cost_ok
-    t["metrics"] = list(sc.get("metrics", []))
+            do(act)
+        except tlc.MachineryError:
+            raise
+        except Exception as e:          # a public call of the history raised: reported by the trace spec
+            hist_err = f"{act}: {type(e).__name__}: {e}"[:200]
+            break
+    t["hist_err"] = hist_err
+    # ---- costs (in the state the history left) read in the given order, then again in the reverse order
+    def read(names):
+        out, ok = {}, {}
+        for name in names:
+            try:
+                c = float(m.get_cost(name))
+                fin = c == c and abs(c) != float("inf")
+                out[name] = _centi(c) if fin else 0
+                ok[name] = bool(fin)
+            except (AssertionError, KeyError, ValueError, RuntimeError, TypeError, IndexError):
+                out[name] = 0
+                ok[name] = False
+        return out, ok
+
+    names = list(sc.get("metrics", []))
+    t["cost"], t["cost_ok"] = read(names)
+    t["cost2"], t["cost2_ok"] = read(list(reversed(names)))
+    t["metrics"] = names
+    t["full"] = bool(sc.get("full", False))
+    # ---- the assignment the sampled coefficients encode at the moment the cost was read
+    theta = {}
+    for n in sorted(recs):
+        lay = recs[n]["layer"]
+        d = {"o": _theta_bits(lay.out_mps_quantizer)}
+        if recs[n]["kind"] in ("conv", "lin"):
+            d["i"] = _theta_bits(lay.in_mps_quantizer)
+            d["w"] = _theta_bits(lay.w_mps_quantizer)
+        theta[n] = d
     shown = {}
     if probe:
         probe.calls.clear()
@@ -463,7 +577,8 @@ def run(sc: Dict[str, Any], cache: Optional[Dict[str, Any]] = None) -> Dict[str,
                "am_i": NA, "am_w": [], "qid_i": 0, "qid_w": 0,
                "cand_o": [int(x) for x in lay.out_mps_quantizer.precision.tolist()], "cand_i": [], "cand_w": [],
                "su_i": NA, "su_o": NA, "su_w": [], "su_ok": False,
-               "ex_i": NA, "ex_o": NA, "ex_w": [], "ex_ok": False, "ex_type": ""}
+               "ex_i": NA, "ex_o": NA, "ex_w": [], "ex_ok": False, "ex_type": "",
+               "th_o": theta[n]["o"][0][0], "th_i": NA, "th_w": [], "th_hot": theta[n]["o"][1]}
         if is_layer:
             rec["am_i"] = _argmax_bits(lay.in_mps_quantizer)[0]
             rec["qid_i"] = qid(lay.in_mps_quantizer)
@@ -472,6 +587,10 @@ def run(sc: Dict[str, Any], cache: Optional[Dict[str, Any]] = None) -> Dict[str,
             aw = _argmax_bits(lay.w_mps_quantizer)
             rec["am_w"] = aw * cout if lay.w_mps_quantizer.alpha.dim() == 1 else aw
             rec["qid_w"] = qid(lay.w_mps_quantizer)
+            rec["th_i"] = theta[n]["i"][0][0]
+            tw = theta[n]["w"][0]
+            rec["th_w"] = tw * cout if lay.w_mps_quantizer.alpha.dim() == 1 else tw
+            rec["th_hot"] = bool(theta[n]["o"][1] and theta[n]["i"][1] and theta[n]["w"][1])
         s = summ.get(r["name"])
         if s is not None:
             try:
@@ -489,7 +608,7 @@ def run(sc: Dict[str, Any], cache: Optional[Dict[str, Any]] = None) -> Dict[str,
                 if isinstance(e, QuantIdentity):
                     rec["ex_o"] = int(e.out_quantizer.precision)
                     rec["ex_ok"] = not is_layer
-                elif isinstance(e, (QuantConv2d, QuantLinear)):
+                elif isinstance(e, (QuantConv1d, QuantConv2d, QuantLinear)):
                     rec["ex_i"] = int(e.in_quantizer.precision)
                     rec["ex_o"] = int(e.out_quantizer.precision)
                     rec["ex_w"] = [int(e.w_quantizer.precision)] * cout
@@ -526,7 +645,7 @@ def run(sc: Dict[str, Any], cache: Optional[Dict[str, Any]] = None) -> Dict[str,
     t["probe"] = bool(probe)
     t["prop"] = sc.get("prop", "C02")
     t["n_exported_quant"] = sum(1 for k, v in exmods.items()
-                                if isinstance(v, (QuantConv2d, QuantLinear, QuantIdentity, QuantList)))
+                                if isinstance(v, (QuantConv1d, QuantConv2d, QuantLinear, QuantIdentity, QuantList)))
     return t
 
 
@@ -545,20 +664,25 @@ def scenario_from_state(st: Dict[str, Any], **opts) -> Dict[str, Any]:
     sc = {"arch": arch,
           "cfg": {"pin": list(st["cfg"]["pin"]), "pa": list(st["cfg"]["pa"]), "pw": list(st["cfg"]["pw"]), "wt": st["cfg"]["wt"]},
           "sel": {"rep": rep, "inq": n + 2, "a": sel_a, "w": sel_w}}
+    if st.get("hist"):
+        sc["hist"] = list(st["hist"])
     sc.update(opts)
     return sc
 
 
-def random_mps_arch(rng: random.Random, max_nodes: int = 9) -> Dict[str, Any]:
-    """Seeded random 2-D architecture over the C02 grammar (wider / deeper than the exhaustive configs)."""
+def random_mps_arch(rng: random.Random, max_nodes: int = 9, dim: int = 2, reuse: bool = False) -> Dict[str, Any]:
+    """Seeded random architecture over the C02 grammar (wider / deeper than the exhaustive configs); dim 1: causal or
+    'same'-padded Conv1d with dilation, no BatchNorm after a conv (MPS folds Conv2d-BN and Linear-BN only);
+    reuse: contains a weight-shared residual block  h' = B(h) + h ; h'' = B(h') + h'  (one layer object, two call sites)."""
     c0 = rng.choice([1, 2, 3])
-    sp = rng.choice([4, 6])
+    sp = rng.choice([4, 6]) if dim == 2 else rng.choice([6, 8, 12])
     nodes: List[Dict[str, Any]] = []
     target = rng.randint(3, max_nodes)
+    done_reuse = not reuse
     for _ in range(100):
-        if len(nodes) >= target:
+        if len(nodes) >= target and done_reuse:
             break
-        a = norm_arch({"dim": 2, "c0": c0, "sp": sp, "nodes": nodes})
+        a = norm_arch({"dim": dim, "c0": c0, "sp": sp, "nodes": nodes})
         sh = shapes(a)
         T = list(range(len(sh)))
         nf = [t for t in T if not sh[t]["flat"]]
@@ -566,17 +690,40 @@ def random_mps_arch(rng: random.Random, max_nodes: int = 9) -> Dict[str, Any]:
         used = {p for nd in nodes for p in nd["ins"]}
         fresh = [t for t in T if t not in used]
         pick = lambda cand: rng.choice([t for t in cand if t in fresh] or cand)
-        kind = rng.choices(["conv", "dw", "lin", "relu", "pool", "flat", "add"],
-                           weights=[6, 2, 4 if fl else 0, 3, 1, 1.2 if len(nf) > 1 else 0, 3])[0]
+        kind = rng.choices(["conv", "dw", "lin", "relu", "pool", "flat", "add", "reuse"],
+                           weights=[6, 2, 4 if fl else 0, 3, 1, 1.2 if len(nf) > 1 else 0, 3, 0 if done_reuse else 5])[0]
         if kind == "conv" and nf:
-            nodes.append({"op": "conv", "ins": [pick(nf)], "out": rng.choice([2, 3, 4, 5]), "k": rng.choice([1, 3]),
-                          "s": rng.choice([1, 1, 1, 2]), "bias": rng.random() < 0.7, "bn": rng.random() < 0.4})
+            causal = dim == 1 and rng.random() < 0.6
+            nodes.append({"op": "conv", "ins": [pick(nf)], "out": rng.choice([2, 3, 4, 5]),
+                          "k": rng.choice([1, 3]) if dim == 2 else rng.choice([1, 2, 3, 5]),
+                          "d": 1 if dim == 2 else rng.choice([1, 1, 2]), "causal": causal,
+                          "s": rng.choice([1, 1, 1, 2]) if (dim == 2 or causal) else 1, "bias": rng.random() < 0.7,
+                          "bn": dim == 2 and rng.random() < 0.4})
         elif kind == "dw" and nf:
-            nodes.append({"op": "conv", "ins": [pick(nf)], "dw": True, "k": 3, "bias": rng.random() < 0.7,
-                          "bn": rng.random() < 0.3})
+            causal = dim == 1 and rng.random() < 0.6
+            nodes.append({"op": "conv", "ins": [pick(nf)], "dw": True, "k": 3, "bias": rng.random() < 0.7, "causal": causal,
+                          "bn": dim == 2 and rng.random() < 0.3})
         elif kind == "lin" and fl:
             nodes.append({"op": "lin", "ins": [pick(fl)], "out": rng.choice([2, 3, 4, 6]), "bias": rng.random() < 0.7,
                           "bn": rng.random() < 0.3})
+        elif kind == "reuse":
+            def quantised_by_layer(t):      # the tensor was (re-)quantised by a conv / lin / add, not only by the input quantiser
+                while t != 0 and nodes[t - 1]["op"] not in ("conv", "lin", "add"):
+                    t = nodes[t - 1]["ins"][0]
+                return t != 0
+            c = [t for t in nf if t != 0 and sh[t]["ch"] <= 5 and quantised_by_layer(t)]
+            if c:
+                h = pick(c)
+                b = len(nodes) + 1
+                blk = {"op": "conv", "ins": [h], "out": sh[h]["ch"], "k": rng.choice([1, 3]), "d": 1, "s": 1,
+                       "bias": rng.random() < 0.7, "bn": False, "causal": dim == 1}
+                nodes.append(dict(blk))
+                nodes.append({"op": "add", "ins": [b, h] if rng.random() < 0.5 else [h, b]})
+                blk2 = dict(blk)
+                blk2.update({"ins": [b + 1], "reuse": b})
+                nodes.append(blk2)
+                nodes.append({"op": "add", "ins": [b + 2, b + 1]})
+                done_reuse = True
         elif kind == "relu" and len(T) > 1:
             nodes.append({"op": "relu", "ins": [pick(T[1:])]})
         elif kind == "pool":
@@ -584,7 +731,7 @@ def random_mps_arch(rng: random.Random, max_nodes: int = 9) -> Dict[str, Any]:
             if c:
                 nodes.append({"op": "pool", "ins": [pick(c)], "kind": rng.choice(["avg", "max"])})
         elif kind == "flat":
-            c = [t for t in nf if t != 0 and sh[t]["ch"] * sh[t]["sp"] ** 2 <= 80]
+            c = [t for t in nf if t != 0 and sh[t]["ch"] * sh[t]["sp"] ** dim <= 80]
             if c:
                 nodes.append({"op": "flat", "ins": [pick(c)]})
         elif kind == "add":
@@ -594,7 +741,7 @@ def random_mps_arch(rng: random.Random, max_nodes: int = 9) -> Dict[str, Any]:
                 p, q = rng.choice(pairs)
                 nodes.append({"op": "add", "ins": [p, q]})
     # close: every tensor but the last must be consumed
-    a = norm_arch({"dim": 2, "c0": c0, "sp": sp, "nodes": nodes})
+    a = norm_arch({"dim": dim, "c0": c0, "sp": sp, "nodes": nodes})
     for _ in range(12):
         sh = shapes(a)
         used = {p for nd in a["nodes"] for p in nd["ins"]}
@@ -607,7 +754,7 @@ def random_mps_arch(rng: random.Random, max_nodes: int = 9) -> Dict[str, Any]:
         if sh[t_] == sh[last] and (t_, last) not in have and (last, t_) not in have:
             a["nodes"].append({"op": "add", "ins": [t_, last] if rng.random() < 0.5 else [last, t_]})
         elif not sh[t_]["flat"] and not sh[last]["flat"] and sh[t_]["sp"] == sh[last]["sp"]:
-            a["nodes"].append({"op": "conv", "ins": [t_], "out": sh[last]["ch"], "k": 1})
+            a["nodes"].append({"op": "conv", "ins": [t_], "out": sh[last]["ch"], "k": 1, "causal": dim == 1})
         elif not sh[t_]["flat"]:
             a["nodes"].append({"op": "flat", "ins": [t_]})
         elif sh[t_]["flat"] and sh[last]["flat"]:
@@ -618,7 +765,7 @@ def random_mps_arch(rng: random.Random, max_nodes: int = 9) -> Dict[str, Any]:
     sh = shapes(a)
     if rng.random() < 0.75 or not any(n["op"] in ("conv", "lin") for n in a["nodes"]):
         if not sh[-1]["flat"]:
-            if sh[-1]["ch"] * sh[-1]["sp"] ** 2 > 96:
+            if sh[-1]["ch"] * sh[-1]["sp"] ** dim > 96:
                 a["nodes"].append({"op": "pool", "ins": [len(sh) - 1]})
                 a = norm_arch(a)
             a["nodes"].append({"op": "flat", "ins": [len(a["nodes"])]})
@@ -626,8 +773,12 @@ def random_mps_arch(rng: random.Random, max_nodes: int = 9) -> Dict[str, Any]:
         a["nodes"].append({"op": "lin", "ins": [len(a["nodes"])], "out": rng.choice([2, 3, 5]), "bias": True})
     a = norm_arch(a)
     used = {p for nd in a["nodes"] for p in nd["ins"]}
-    if any(t_ not in used for t_ in range(len(a["nodes"]))):
-        return random_mps_arch(rng, max_nodes)
+    sh = shapes(a)
+    # a plain conv with exactly one input and one output channel satisfies plinio's depthwise pattern (groups = in = out = 1):
+    # which cost function / sharing rule applies is ambiguous (cf. F26), such layers are not generated
+    ambiguous = any(nd["op"] == "conv" and not nd["dw"] and sh[nd["ins"][0]]["ch"] == 1 and nd["out"] == 1 for nd in a["nodes"])
+    if ambiguous or any(t_ not in used for t_ in range(len(a["nodes"]))):
+        return random_mps_arch(rng, max_nodes, dim, reuse)
     return a
 
 
@@ -719,23 +870,29 @@ def _take(lst, k, rng):
     return [lst[i] for i in idx]
 
 
-def _options(pid: str, cfg: Dict[str, Any], rng: random.Random) -> Dict[str, Any]:
+HIST_ACTS = ["fwd_eval", "fwd_hard", "fwd_ghard", "load", "export", "summary", "upd"]
+
+
+def _options(pid: str, cfg: Dict[str, Any], rng: random.Random, dim: int = 2, p_hist: float = 0.0) -> Dict[str, Any]:
     """Construction / evaluation options of one model build (the property's quantifier: temperature 0.05..20,
-    gumbel on/off, hard on/off; C05: eval or hard-sampling training mode, never Gumbel noise in training)."""
+    gumbel on/off, hard on/off; C05: eval, hard-sampling training mode, hard-Gumbel training mode, call histories)."""
     temp = round(0.05 * (400.0 ** rng.random()), 3)
     o: Dict[str, Any] = {"temp": temp, "prop": pid}
     if pid == "C02":
         o.update({"mode": "eval", "gumbel": rng.random() < 0.5, "hard_flag": rng.random() < 0.3,
                   "metrics": [], "probe": False, "export": True})
     else:
-        mode = "hard" if rng.random() < 0.4 else "eval"
+        mode = rng.choices(["eval", "hard", "ghard"], weights=[4, 3, 3])[0]
         mets = ["params_bit", "ops_bit"]
         if cfg["wt"] == "pl":
             mets.append("mpic_latency")
-            if list(cfg["pa"]) == [8] and list(cfg["pin"]) == [8]:
+            if list(cfg["pa"]) == [8] and list(cfg["pin"]) == [8] and dim == 2:
                 mets.append("ne16_latency")
-        o.update({"mode": mode, "gumbel": (rng.random() < 0.5) if mode == "eval" else False,
-                  "metrics": mets, "probe": True, "export": False})
+        rng.shuffle(mets)                       # the metrics are read in this order, then in the reverse order
+        o.update({"mode": mode, "gumbel": (rng.random() < 0.5) if mode == "eval" else mode == "ghard",
+                  "metrics": mets, "probe": True, "export": False, "full": rng.random() < 0.25})
+        if rng.random() < p_hist:
+            o["hist"] = [rng.choice(HIST_ACTS) for _ in range(rng.randint(0, 6))]
     return o
 
 
@@ -768,7 +925,7 @@ def _corrupt(tr, pid, rng):
         else:
             r["am_o"] = 2 if r["am_o"] != 2 else 4
     else:
-        kind = rng.choice(["cost", "cost", "pr_in", "pr_out", "su_w"])
+        kind = rng.choice(["cost", "cost", "pr_in", "pr_out", "th_w", "cost2"])
         r = rng.choice(layers)
         if kind == "cost":
             m = rng.choice([x for x in c["metrics"] if x in ("params_bit", "ops_bit")])     # defined on every model
@@ -777,8 +934,11 @@ def _corrupt(tr, pid, rng):
             r["pr_in"] += 1000
         elif kind == "pr_out":
             r["pr_out"] += 1000
+        elif kind == "cost2":
+            m = rng.choice([x for x in c["metrics"] if x in ("params_bit", "ops_bit")])
+            c["cost2"][m] = c["cost2"][m] + max(200, abs(c["cost2"][m]) // 50)
         else:
-            r["su_w"] = [(2 if b != 2 else 4) for b in r["su_w"]]
+            r["th_w"] = [(2 if b != 2 else 4) for b in r["th_w"]]
     return c, kind
 
 
@@ -808,7 +968,10 @@ def run_check(pid: str, tier: str, seed: int, replay: Optional[str], plan: Dict[
     build_no = 0
     replay_info = []
     first = True
-    for cfg, limit, per_group, label in plan["design"]:
+    skipped_gated = {}
+    for entry in plan["design"]:
+        cfg, limit, per_group, label = entry[:4]
+        gate = entry[4] if len(entry) > 4 else None
         kw = {"workers": plan.get("tlc_workers", 8)}
         if first:
             kw.update({"coverage": True, "require_cov": ["MPSLifeMC!Grow", "MPSLifeMC!Seal", "MPSLifeMC!Select"]})
@@ -816,6 +979,11 @@ def run_check(pid: str, tier: str, seed: int, replay: Optional[str], plan: Dict[
         states = pitgen.dump_states("MPSLifeMC", cfg, R, **kw)
         groups = _group_states(states)
         n_sel = sum(len(g) for g in groups.values())
+        if gate and gate not in R.known_open:
+            # the states of this configuration carry the signature of a finding that is not listed (yet): the design
+            # level is model-checked, the replay would only re-report the unlisted finding
+            skipped_gated[cfg] = {"needs_open_finding": gate, "selected_states_not_replayed": n_sel}
+            continue
         chosen = _sample_groups(groups, limit, per_group, rng)
         n = 0
         for g in chosen:
@@ -824,8 +992,15 @@ def run_check(pid: str, tier: str, seed: int, replay: Optional[str], plan: Dict[
             for j, st in enumerate(g):
                 sc = scenario_from_state(st)
                 if opts is None:
-                    opts = _options(pid, sc["cfg"], rng)
+                    opts = _options(pid, sc["cfg"], rng, dim=sc["arch"]["dim"])
+                    if any(nd["reuse"] for nd in sc["arch"]["nodes"]):
+                        opts["full"] = False
+                hist = sc.get("hist")
                 sc.update(opts)
+                if hist is not None:
+                    sc["hist"] = hist
+                    sc["mode"] = "eval"
+                    sc["gumbel"] = False
                 sc["order"] = "ef" if (j + build_no) % 2 else "fe"
                 sc["seed"] = build_no * 1000 + j
                 sc["src"] = label
@@ -836,15 +1011,18 @@ def run_check(pid: str, tier: str, seed: int, replay: Optional[str], plan: Dict[
                             "replayed_states": n, "replayed_builds": len(chosen)})
     for cfg in plan.get("sanity", []):
         R.design("MPSLifeMC", cfg, expect_ok=False, workers=plan.get("tlc_workers", 8))
-    # ---- code -> spec: seeded random architectures / tuples / winners outside the exhaustive bounds
+    # ---- code -> spec: seeded random architectures / tuples / winners / histories outside the exhaustive bounds
     for i in range(plan.get("n_random", 0)):
         build_no += 1
-        arch = random_mps_arch(rng, plan.get("max_nodes", 9))
-        if pid == "C05" and rng.random() < plan.get("p_pc", 0.5):
+        dim = 1 if rng.random() < plan.get("p_1d", 0.35) else 2
+        pc = pid == "C05" and rng.random() < plan.get("p_pc", 0.5)
+        reuse = (not pc) and rng.random() < plan.get("p_reuse", 0.25)
+        arch = random_mps_arch(rng, plan.get("max_nodes", 9), dim, reuse)
+        if pc:
             for _ in range(50):
                 if pc_ok(arch):
                     break
-                arch = random_mps_arch(rng, plan.get("max_nodes", 9))
+                arch = random_mps_arch(rng, plan.get("max_nodes", 9), dim, False)
             pw = rng.choice([[0, 2, 8], [4, 0], [0, 8, 4, 2], [2, 4, 8], [8, 4], [2, 0, 4]])
             cfg_ = {"pin": rng.choice(ALL15), "pa": rng.choice(ALL15), "pw": pw, "wt": "pc"}
         else:
@@ -852,7 +1030,7 @@ def run_check(pid: str, tier: str, seed: int, replay: Optional[str], plan: Dict[
             cfg_ = {"pin": pa if rng.random() < 0.5 else rng.choice(ALL15), "pa": pa, "pw": rng.choice(ALL15), "wt": "pl"}
             if pid == "C05" and rng.random() < 0.2:
                 cfg_["pin"] = cfg_["pa"] = [8]
-        opts = _options(pid, cfg_, rng)
+        opts = _options(pid, cfg_, rng, dim=dim, p_hist=plan.get("p_hist", 0.35))
         for j in range(plan.get("random_sels", 2)):
             sc = {"arch": arch, "cfg": cfg_, "sel": None}
             sc.update(opts)
@@ -861,6 +1039,29 @@ def run_check(pid: str, tier: str, seed: int, replay: Optional[str], plan: Dict[
             sc["src"] = "random"
             scs.append(sc)
             labels.append("random")
+    # ---- full_cost = True on networks with fixed (excluded) layers: finding F65, replayed only while it is listed
+    if pid == "C05":
+        fam = []
+        for dim in (2, 1):
+            for ex in ([2], [1], [3], [1, 3]):
+                nodes = [{"op": "conv", "ins": [0], "out": 3, "k": 3, "causal": dim == 1},
+                         {"op": "conv", "ins": [1], "out": 2, "k": 1, "causal": dim == 1},
+                         {"op": "flat", "ins": [2]}, {"op": "lin", "ins": [3], "out": 2}]
+                for e in ex:
+                    nodes[e - 1 if e < 3 else 3]["excl"] = True
+                fam.append(norm_arch({"dim": dim, "c0": 2, "sp": 4, "nodes": nodes}))
+        if "F65" in R.known_open:
+            for k, arch in enumerate(fam):
+                build_no += 1
+                cfg_ = {"pin": [2, 4, 8], "pa": [4, 8], "pw": [8, 2, 4], "wt": "pl"}
+                sc = {"arch": arch, "cfg": cfg_, "sel": None, "temp": 1.0, "prop": pid, "mode": "eval", "gumbel": False,
+                      "metrics": ["params_bit", "ops_bit", "mpic_latency"], "probe": False, "export": False, "full": True,
+                      "order": "fe", "seed": build_no * 1000, "src": "fullcost-fixed"}
+                scs.append(sc)
+                labels.append("fullcost-fixed")
+        else:
+            skipped_gated["full_cost with fixed layers"] = {"needs_open_finding": "F65", "scenarios_not_run": len(fam)}
+    R.extra["not_replayed_unlisted_findings"] = skipped_gated
     traces = run_scenarios(scs, procs=procs)
     for sc, tr in zip(scs, traces):
         sc["_nt"] = _nontrivial(tr) and (pid != "C02" or tr["y_varies"])
@@ -881,7 +1082,8 @@ def run_check(pid: str, tier: str, seed: int, replay: Optional[str], plan: Dict[
     R.extra["bit_identical_all"] = all(t["bit_identical"] for t in traces) if pid == "C02" else None
     R.extra["outputs_vary_over_batch"] = sum(1 for t in traces if t["y_varies"]) if pid == "C02" else None
     # ---- sensitivity of the trace spec: corrupted copies of accepted traces must be rejected
-    ok_idx = [i for i, v in verdicts if v == "ok"]
+    ok_idx = [i for i, v in verdicts if v == "ok" and traces[i]["L"] and all(r["th_hot"] for r in traces[i]["L"])
+              and not (traces[i]["full"] and any(nd["excl"] for nd in traces[i]["arch"]["nodes"]))]
     crng = random.Random(seed + 77)
     pick = _take(ok_idx, min(len(ok_idx), plan.get("n_corrupt", 24)), crng)
     if pick:
